@@ -134,6 +134,10 @@ def _na(ctx) -> None:
                 problems.append(f"`{show(d, it)[:70]}` does not keep exactly the elements that are not None")
         dt = kw(v, "dtype")
         want = ("call", ("attr", ("attr", SELF, "_dtype"), "with_nullable"), (("const", "bool", False),), ())
+        # an untyped (empty) vector has no dtype: `None if self._dtype is None else <want>` is the same rule
+        D = ("attr", SELF, "_dtype")
+        if dt is not None and dt[0] == "ifexp" and dt[1] == ("cmp", "Is", D, SNONE) and dt[2] == SNONE:
+            dt = dt[3]
         if dt != want:
             problems.append(f"the result dtype is `{show(dt, it)[:50] if dt is not None else 'inferred'}`, expected self's dtype made non-nullable")
     ctx.ob("d.na-triple", f, "dropna", not problems and bool(rets), "dropna: filter `is not None`, non-nullable", f.node,
@@ -160,6 +164,20 @@ def _na(ctx) -> None:
                            f"fresh copy of self)")
     if k < 2:
         raise AnalysisError("fillna: expected two fill results (promoting and standard path)")
+    # an object vector (all-None columns, mixed values) accepts any fill value: no rejection may be reachable for it
+    itf = interp_of(prog, f)
+    from ..symx import flatten_conds, subterms
+    bad = []
+    for e in itf.events:
+        if e.kind != "raise":
+            continue
+        excl = any((not pol) and t[0] == "cmp" and t[1] in ("Is", "Eq") and t[3] == ("name", "object")
+                   and t[2][0] == "attr" and t[2][2] == "kind" for t, pol in flatten_conds(e.conds))
+        if not excl:
+            bad.append(f"`raise {show(e.term, itf)[:50]}` (line {getattr(e.node, 'lineno', '?')}) is reachable for an object vector: validate_scalar "
+                       f"accepts nothing for <object> and promotion from object is impossible, so every fill of an all-None or mixed vector "
+                       f"would be refused")
+    ctx.ob("d.na-triple", f, "fillna-object", not bad, "fillna never rejects a value for an object vector", f.node, message="; ".join(bad[:1]))
 
 
 _V, _T = "vector", "table"
@@ -193,6 +211,9 @@ MUTANTS = [
     dict(id="aggregate-stdev-population", module=_T,
          old="					variance = sum((v - mean_val) ** 2 for v in clean) / (n - 1)", new="					variance = sum((v - mean_val) ** 2 for v in clean) / n",
          rules=["c.aggregators", "c.siblings"]),
+    dict(id="fillna-validates-object-vectors", module=_V, old="		if dtype is not None and value is not None and dtype.kind is not object:",
+         new="		if dtype is not None and value is not None:", rules=["d.na-triple"],
+         desc="the defect repaired by fix 9a342bb: Vector([None, None]).fillna(0) raises ValueError"),
     dict(id="fillna-tests-falsy", module=_V, old="		out = tuple(value if x is None else x for x in self._underlying)",
          new="		out = tuple(value if not x else x for x in self._underlying)", rules=["d.na-triple"]),
     dict(id="max-filter-truthy", module=_V, old="		non_none = [v for v in self._underlying if v is not None]\n		return max(non_none) if non_none else None",
